@@ -159,10 +159,13 @@ Definition run_data (name : str) (a : list str) : str :=
   else if str_eqb name (lit "stream") then
     (* mode, buffering sign (0: -1, 1: 0, 2: positive) *)
     let b := match arg_nat 1 a with 0 => (-1)%Z | 1 => 0%Z | _ => 4096%Z end in
-    let s := make_stream (arg 0 a) b in
+    match make_stream_call (arg 0 a) b with
+    | None => lit "EXC:ValueError"
+    | Some s =>
     (match s_buffer s with NoBuffer => lit "raw" | BufferedRandom => lit "BufferedRandom"
                          | BufferedReader => lit "BufferedReader" | BufferedWriter => lit "BufferedWriter" end)
       ++ lit "/" ++ r_bool (s_text s)
+    end
   else lit "?unknown".
 
 Definition run_sandbox (name : str) (a : list str) : str :=
